@@ -109,6 +109,11 @@ static void add_common(Menu<T>& m) {
   m.call("refine_with_congruences", "congruence_system_dimension_exceeds", IA, [](T& x, Rej& rj) { OPND(Congruence_System, cs, ((le_dim(N + 1) %= 0) / 3)); rj.attempt([&] { x.refine_with_congruences(cs); }); OPCHK(cs); });
   m.call("unconstrain(Variable)", "variable_not_a_dimension", IA, [](T& x, Rej& rj) { rj.attempt([&] { x.unconstrain(Variable(N)); }); });
   m.call("unconstrain(Variables_Set)", "variable_not_a_dimension", IA, [](T& x, Rej& rj) { Variables_Set vs = vset(0, N); if (N == 0) vs = vset(0); rj.attempt([&] { x.unconstrain(vs); }); });
+  // --- ill-formed system arguments handed out by accessors (pending rows, not minimized, minimized, converted)
+  cs_variants<T>(m, "add_constraints", "constraint_system_dimension_exceeds", IA, CK_DIM, [](T& x, const Constraint_System& cs) { x.add_constraints(cs); });
+  cs_variants<T>(m, "refine_with_constraints", "constraint_system_dimension_exceeds", IA, CK_DIM, [](T& x, const Constraint_System& cs) { x.refine_with_constraints(cs); });
+  cgs_variants<T>(m, "add_congruences", "congruence_system_dimension_exceeds", IA, GGK_DIM, [](T& x, const Congruence_System& cgs) { x.add_congruences(cgs); });
+  cgs_variants<T>(m, "refine_with_congruences", "congruence_system_dimension_exceeds", IA, GGK_DIM, [](T& x, const Congruence_System& cgs) { x.refine_with_congruences(cgs); });
   // --- binary operators with a dimension-incompatible operand
   m.call("intersection_assign", "operand_dimension_differs", IA, [](T& x, Rej& rj) { OPND(T, y, (N + 1)); rj.attempt([&] { x.intersection_assign(y); }); OPCHK(y); });
   m.call("upper_bound_assign", "operand_dimension_differs", IA, [](T& x, Rej& rj) { OPND(T, y, (N + 1)); rj.attempt([&] { x.upper_bound_assign(y); }); OPCHK(y); });
@@ -213,6 +218,21 @@ static void add_poly(Menu<PH>& m) {
   m.call("add_generator", "line_into_empty_polyhedron", IA, [](PH& x, Rej& rj) { OPND(Generator, g, (line(A))); rj.attempt([&] { x.add_generator(g); }); OPCHK(g); }, true, empty1);
   m.call("add_generators", "no_point_into_empty_polyhedron", IA, [](PH& x, Rej& rj) { OPND(Generator_System, gs, (ray(A))); gs.insert(line(A)); rj.attempt([&] { x.add_generators(gs); }); }, true, empty1);
   m.call("add_recycled_generators", "no_point_into_empty_polyhedron", IA, [](PH& x, Rej& rj) { Generator_System gs(ray(A)); rj.attempt([&] { x.add_recycled_generators(gs); }); }, true, empty1);
+  // ill-formed systems in every lazy state
+  gs_variants<PH>(m, "add_generators", "generator_system_dimension_exceeds", IA, GK_DIM, [](PH& x, const Generator_System& gs) { x.add_generators(gs); });
+  cgs_variants<PH>(m, "add_congruences", "proper_congruence", IA, GGK_PROPER, [](PH& x, const Congruence_System& cgs) { x.add_congruences(cgs); }, d1);
+  cs_variants<PH>(m, "limited_H79_extrapolation_assign", "constraint_system_dimension_exceeds", IA, CK_DIM, [](PH& x, const Constraint_System& cs) { PH y(x.space_dimension(), EMPTY); x.limited_H79_extrapolation_assign(y, cs); });
+  cs_variants<PH>(m, "limited_BHRZ03_extrapolation_assign", "constraint_system_dimension_exceeds", IA, CK_DIM, [](PH& x, const Constraint_System& cs) { PH y(x.space_dimension(), EMPTY); x.limited_BHRZ03_extrapolation_assign(y, cs); });
+  if (!Tr<PH>::nnc) {
+    cs_variants<PH>(m, "add_constraints", "strict_inequality_on_C_polyhedron", IA, CK_STRICT, [](PH& x, const Constraint_System& cs) { x.add_constraints(cs); }, d1);
+    cs_variants<PH>(m, m.cls + "(Constraint_System)", "strict_inequality_on_C_polyhedron", IA, CK_STRICT, [](PH& x, const Constraint_System& cs) { (void) x; PH y(cs); (void) y; });
+    cs_variants<PH>(m, "limited_H79_extrapolation_assign", "strict_inequality_on_C_polyhedron", IA, CK_STRICT, [](PH& x, const Constraint_System& cs) { PH y(x.space_dimension(), EMPTY); x.limited_H79_extrapolation_assign(y, cs); }, d1);
+    cs_variants<PH>(m, "limited_BHRZ03_extrapolation_assign", "strict_inequality_on_C_polyhedron", IA, CK_STRICT, [](PH& x, const Constraint_System& cs) { PH y(x.space_dimension(), EMPTY); x.limited_BHRZ03_extrapolation_assign(y, cs); }, d1);
+    cs_variants<PH>(m, "bounded_H79_extrapolation_assign", "strict_inequality_on_C_polyhedron", IA, CK_STRICT, [](PH& x, const Constraint_System& cs) { PH y(x.space_dimension(), EMPTY); x.bounded_H79_extrapolation_assign(y, cs); }, d1, true);
+    cs_variants<PH>(m, "bounded_BHRZ03_extrapolation_assign", "strict_inequality_on_C_polyhedron", IA, CK_STRICT, [](PH& x, const Constraint_System& cs) { PH y(x.space_dimension(), EMPTY); x.bounded_BHRZ03_extrapolation_assign(y, cs); }, d1, true);
+    gs_variants<PH>(m, "add_generators", "closure_point_on_C_polyhedron", IA, GK_CLOSURE, [](PH& x, const Generator_System& gs) { x.add_generators(gs); }, d1);
+    gs_variants<PH>(m, m.cls + "(Generator_System)", "closure_point_on_C_polyhedron", IA, GK_CLOSURE, [](PH& x, const Generator_System& gs) { (void) x; PH y(gs); (void) y; });
+  }
   // congruences that are proper
   m.call("add_congruence", "proper_congruence", IA, [](PH& x, Rej& rj) { OPND(Congruence, c, ((A %= 1) / 2)); rj.attempt([&] { x.add_congruence(c); }); OPCHK(c); }, false, d1);
   m.call("add_congruences", "proper_congruence", IA, [](PH& x, Rej& rj) { OPND(Congruence_System, cs, ((A %= 1) / 2)); rj.attempt([&] { x.add_congruences(cs); }); OPCHK(cs); }, false, d1);
@@ -301,6 +321,16 @@ static void add_shape(Menu<SH>& m) {
     m.call(m.cls + "(Constraint_System)", "constraint_not_in_domain_non_unit_coefficients", IA, [](SH& x, Rej& rj) { (void) x; OPND(Constraint_System, cs, (2 * A - 3 * B <= 1)); rj.attempt([&] { SH y(cs); (void) y; }); OPCHK(cs); });
     m.call("add_constraint", "strict_inequality_on_closed_domain", IA, [](SH& x, Rej& rj) { OPND(Constraint, c, (A < 1)); rj.attempt([&] { x.add_constraint(c); }); OPCHK(c); }, false, d1);
   }
+  cgs_variants<SH>(m, "add_congruences", "proper_congruence", IA, GGK_PROPER, [](SH& x, const Congruence_System& cgs) { x.add_congruences(cgs); }, d1);
+  cs_variants<SH>(m, "limited_CC76_extrapolation_assign", "constraint_system_dimension_exceeds", IA, CK_DIM, [](SH& x, const Constraint_System& cs) { SH y(x.space_dimension(), EMPTY); x.limited_CC76_extrapolation_assign(y, cs); });
+  cs_variants<SH>(m, "limited_CC76_extrapolation_assign", "strict_inequality_in_constraint_system", IA, CK_STRICT, [](SH& x, const Constraint_System& cs) { SH y(x.space_dimension(), EMPTY); x.limited_CC76_extrapolation_assign(y, cs); }, d1);
+  if (Tr<SH>::weakly) {
+    cs_variants<SH>(m, "add_constraints", "constraint_not_in_domain_non_unit_coefficients", IA, CK_NONBD, [](SH& x, const Constraint_System& cs) { x.add_constraints(cs); }, d2);
+    cs_variants<SH>(m, m.cls + "(Constraint_System)", "constraint_not_in_domain_non_unit_coefficients", IA, CK_NONBD, [](SH& x, const Constraint_System& cs) { (void) x; SH y(cs); (void) y; });
+    cs_variants<SH>(m, "add_constraints", "strict_inequality_on_closed_domain", IA, CK_STRICT, [](SH& x, const Constraint_System& cs) { x.add_constraints(cs); }, d1);
+  }
+  if (Tr<SH>::box)
+    cs_variants<SH>(m, "add_constraints", "constraint_not_an_interval_constraint", IA, CK_NONBD, [](SH& x, const Constraint_System& cs) { x.add_constraints(cs); }, d2);
   m.call("add_congruence", "proper_congruence", IA, [](SH& x, Rej& rj) { OPND(Congruence, c, ((A %= 1) / 2)); rj.attempt([&] { x.add_congruence(c); }); OPCHK(c); }, false, d1);
   m.call("add_congruences", "proper_congruence", IA, [](SH& x, Rej& rj) { OPND(Congruence_System, cs, ((A %= 1) / 2)); rj.attempt([&] { x.add_congruences(cs); }); OPCHK(cs); }, false, d1);
   m.call(m.cls + "(Generator_System)", "no_point", IA, [](SH& x, Rej& rj) { (void) x; OPND(Generator_System, gs, (ray(A + B))); rj.attempt([&] { SH y(gs); (void) y; }); OPCHK(gs); });
@@ -315,6 +345,8 @@ static void add_weakly(Menu<SH>& m) {
   DIMS("CC76_extrapolation_assign", x.CC76_extrapolation_assign(y)); DIMS("BHMZ05_widening_assign", x.BHMZ05_widening_assign(y)); DIMS("CC76_narrowing_assign", x.CC76_narrowing_assign(y));
   m.call("limited_BHMZ05_extrapolation_assign", "operand_dimension_differs", IA, [](SH& x, Rej& rj) { OPND(SH, y, (N + 1)); Constraint_System cs; rj.attempt([&] { x.limited_BHMZ05_extrapolation_assign(y, cs); }); OPCHK(y); });
   m.call("limited_BHMZ05_extrapolation_assign", "constraint_system_dimension_exceeds", IA, [](SH& x, Rej& rj) { OPND(SH, y, (N, EMPTY)); OPND(Constraint_System, cs, (le_dim(N + 1) >= 0)); rj.attempt([&] { x.limited_BHMZ05_extrapolation_assign(y, cs); }); OPCHK(y); OPCHK(cs); });
+  cs_variants<SH>(m, "limited_BHMZ05_extrapolation_assign", "strict_inequality_in_constraint_system", IA, CK_STRICT, [](SH& x, const Constraint_System& cs) { SH y(x.space_dimension(), EMPTY); x.limited_BHMZ05_extrapolation_assign(y, cs); }, d1);
+  cs_variants<SH>(m, "limited_BHMZ05_extrapolation_assign", "constraint_system_dimension_exceeds", IA, CK_DIM, [](SH& x, const Constraint_System& cs) { SH y(x.space_dimension(), EMPTY); x.limited_BHMZ05_extrapolation_assign(y, cs); });
   m.call("limited_BHMZ05_extrapolation_assign", "strict_inequality_in_constraint_system", IA, [](SH& x, Rej& rj) { OPND(SH, y, (N, EMPTY)); OPND(Constraint_System, cs, (A < 7)); rj.attempt([&] { x.limited_BHMZ05_extrapolation_assign(y, cs); }); OPCHK(y); OPCHK(cs); }, false, d1);
   m.call("limited_CC76_extrapolation_assign", "strict_inequality_in_constraint_system", IA, [](SH& x, Rej& rj) { OPND(SH, y, (N, EMPTY)); OPND(Constraint_System, cs, (A < 7)); rj.attempt([&] { x.limited_CC76_extrapolation_assign(y, cs); }); OPCHK(y); OPCHK(cs); }, false, d1);
 }
@@ -353,6 +385,9 @@ static void add_grid(Menu<Grid>& m) {
   m.call("add_constraint", "inequality_constraint", IA, [](Grid& x, Rej& rj) { OPND(Constraint, c, (A >= 1)); rj.attempt([&] { x.add_constraint(c); }); OPCHK(c); }, false, d1);
   m.call("add_constraints", "inequality_constraint", IA, [](Grid& x, Rej& rj) { Constraint_System cs; cs.insert(A == 0); cs.insert(A >= 1); rj.attempt([&] { x.add_constraints(cs); }); }, false, d1);
   m.call("add_recycled_constraints", "inequality_constraint", IA, [](Grid& x, Rej& rj) { Constraint_System cs; cs.insert(A >= 1); rj.attempt([&] { x.add_recycled_constraints(cs); }); }, false, d1);
+  cs_variants<Grid>(m, "add_constraints", "inequality_constraint", IA, CK_INEQ, [](Grid& x, const Constraint_System& cs) { x.add_constraints(cs); }, d1);
+  cs_variants<Grid>(m, "Grid(Constraint_System)", "inequality_constraint", IA, CK_INEQ, [](Grid& x, const Constraint_System& cs) { (void) x; Grid y(cs); (void) y; });
+  cgs_variants<Grid>(m, "limited_extrapolation_assign", "congruence_system_dimension_exceeds", IA, GGK_DIM, [](Grid& x, const Congruence_System& cgs) { Grid y(x.space_dimension(), EMPTY); x.limited_extrapolation_assign(y, cgs); });
   m.call("Grid(Constraint_System)", "inequality_constraint", IA, [](Grid& x, Rej& rj) { (void) x; OPND(Constraint_System, cs, (A + B >= 0)); rj.attempt([&] { Grid y(cs); (void) y; }); OPCHK(cs); });
   m.call("Grid(Grid_Generator_System)", "no_point", IA, [](Grid& x, Rej& rj) { (void) x; OPND(Grid_Generator_System, gs, (grid_line(A + B))); rj.attempt([&] { Grid y(gs); (void) y; }); OPCHK(gs); });
   m.call("add_grid_generator", "generator_dimension_exceeds", IA, [](Grid& x, Rej& rj) { OPND(Grid_Generator, g, (grid_point(le_dim(N + 1)))); rj.attempt([&] { x.add_grid_generator(g); }); OPCHK(g); });
